@@ -77,6 +77,7 @@ def cases(tier):
             uniq.append(c)
     for h in explorer.soak_histories():
         uniq.append({"seed": "mini", "ops": h, "single": True})
+        uniq.append({"seed": "mini", "ops": h, "single": True, "h": ["A"] * len(h)})      # through long-held handles
     for n in (70, 300) if tier == "quick" else (70, 130, 300, 600):
         uniq.append({"mode": "big", "n": n})
     # E1s: explicit-state BFS over link topologies (de-duplicated on the canonical state), then every removal
